@@ -363,6 +363,13 @@ func cmdCheck(args []string) int {
 		}
 	}
 	rep := buildReport(prog, o, results, obs, vac, seed, loadS, time.Since(t0).Seconds(), cfg)
+	if o.tier == "thorough" && !o.noWrite && os.Getenv("VERIF_NO_CORPUS") == "" {
+		rep.corpus = runCorpus(o)
+		fmt.Printf("corpus: %d property-breaking or harmless changes applied to a scratch copy, %d as expected, %d unexpected, %d skipped\n", rep.corpus.Ran, rep.corpus.AsExpected, len(rep.corpus.Unexpected), len(rep.corpus.Skipped))
+		for _, u := range rep.corpus.Unexpected {
+			fmt.Println("  corpus-unexpected:", u)
+		}
+	}
 	rc := rep.emit(o, toolErrs)
 	if len(obs) == 0 {
 		fmt.Printf("TOOL-ERROR: no obligations generated for %s\n", o.id)
